@@ -16,8 +16,8 @@ def replay_context(fl, FA, vals=None, seed=0, budget=300, **kw):
 
     def fresh(n):
         import numpy as np
-        return {"float_type": rng.choice([np.float32, np.float64, np.float16]), "decimals": rng.randrange(0, 12), "atol": rng.choice([1e-9, 0.1, 0.5, 0.001]),
-                "rtol": rng.choice([0.0, 1e-6, 0.25]), "alias": rng.choice(["", "*", "fl", "fuzzy"]), "logger": logging.getLogger(f"x{rng.randrange(99)}"),
+        return {"float_type": rng.choice([np.float32, np.float64, np.float16]), "decimals": rng.randrange(0, 12), "atol": rng.choice([1e-9, 0.1, 0.5, 0.001, -0.5]),
+                "rtol": rng.choice([0.0, 1e-6, 0.25, -1e-3, float("nan")]), "alias": rng.choice(["", "*", "fl", "fuzzy"]), "logger": logging.getLogger(f"x{rng.randrange(99)}"),
                 "factory_manager": fl.FactoryManager()}[n]
 
     def setdirect(n, v):
@@ -51,7 +51,7 @@ def replay_context(fl, FA, vals=None, seed=0, budget=300, **kw):
             def check_level(level):
                 entry = snapshot()
                 kws = levels[level]
-                mid = {}
+                mid = dict(entry)           # if entering the context itself raises, the with-body never ran: unnamed settings are as at entry
                 raised = None
                 try:
                     with (prebuilt[level] if prebuilt is not None else S.context(**kws)):
@@ -130,6 +130,13 @@ def replay_helpers(fl, FA, vals=None, **kw):
             out.append(f"import_statement() inside context(alias='fl') is {stmt!r}")
         if close:
             out.append(f"Op.is_close(1.0, 1.0005) is True inside context(atol=1e-6, rtol=0) [alias {alias!r}]")
+    # the temporary float type does not switch the formatting of library floats off
+    import numpy as _np
+    for ft in (_np.float32, _np.float16, _np.float64):
+        with S.context(float_type=ft, decimals=2):
+            txt = fl.Op.str(fl.to_float("0.3333333"))
+            if txt != "0.33":
+                out.append(f"inside context(float_type={ft.__name__}, decimals=2): Op.str(to_float('0.3333333')) = {txt!r} (expected '0.33')")
     # the temporary tolerances keep their roles: atol absolute, rtol relative
     with S.context(atol=0.5, rtol=0.0):
         if not bool(fl.Op.is_close(0.0, 0.4)) or bool(fl.Op.is_close(100.0, 110.0)):
